@@ -3,6 +3,7 @@ import OdakProofs.Lemmas.PropagateLemmas
 import OdakModel.Propagator
 import OdakProofs.Lemmas.GenPropagator
 import OdakProofs.Lemmas.GenPropagatorObject5
+import OdakProofs.Lemmas.PropagatorObjectInst3
 
 /-! # C06 – the propagator forward model is history-independent and matches its documented model -/
 namespace Odak
@@ -353,5 +354,121 @@ theorem C06_gen_constructor_keeps_distances_and_powers_by_reference (E : PropOps
 
 /-- the regenerated state structure has exactly the reviewed attributes (a `self.x = ...` added anywhere in the class changes it) -/
 theorem C06_gen_object_attributes : propagatorFields = propObjFields := gen_propagatorFields_eq
+
+end Odak
+
+/-! ## The regenerated propagator object INSTANTIATED with the grid model (work package 16)
+  The theorems of the previous section are abstract over a record `PropOps` of uninterpreted tensor operations and ASSUME the array laws
+  `PropLaws`.  Here the record is `propOpsGrid` (`OdakModel/PropagatorObjectInst.lean`): every operation is a definition of the grid model -
+  the regenerated pad / crop index maps, the regenerated `custom` pipeline, the regenerated kernel dispatch and kernels, the regenerated
+  `generate_complex_field` / `calculate_amplitude` - on tensors `Ten ℝ` of any rank.  The laws are PROVED for it, so the call-list theorem of
+  the regenerated object and the documented-model theorem of the first section become ONE statement with no uninterpreted operation and no
+  assumed law: every forward call, after any history, returns `crop(ifft(fft(pad u) · H(λ_c, z_d) · A))`.  The same record at `Float` is run
+  against the real `odak.learn.wave.propagator` on every check (`gpi_seq`, `harness/props/genobjects_inst.py`). -/
+namespace Odak
+open Gen CGrid
+
+/-- **the array laws the object theorems assume hold in the grid model** (reading a slot after a store - for every buffer, index path and
+    stored value -, the truth value of a stored flag, a new flag buffer is all false): no assumption is left -/
+theorem C06_gen_object_laws_hold_in_the_grid_model : PropLaws (propOpsGrid : PropOps (Ten ℝ) ℝ) := propLaws_propOpsGrid
+
+/-- **the documented model, for every call list on the REGENERATED object**.  A propagator is built by the regenerated `__init__`
+    (resolution `[h, w]`, any wavelengths, distances, laser powers, aperture; a propagation type whose regenerated kernel at the padded size
+    is `kern λ z`).  After ANY list `pre` of calls - forward calls on any channels and planes in any order, reconstructions, `set_laser_powers`,
+    `get_laser_powers`, `set_aperture` - a forward call on an `[h, w]` field `u` with channel `c` and plane `d` returns
+
+        crop_center( ifft2( ifftshift( (H · A) · fftshift( fft2( zero_pad(u) ) ) ) ) )
+
+    with `H = objKernelGrid ..`: the regenerated kernel of the wavelength of channel `c` and of the distance element `d` of the distances
+    tensor (for 'back and forth' the product of the kernels of the zero-mode distance and of the way back), WITHOUT the aperture, and `A` the
+    aperture in force: the constructor's, changed only by the `set_aperture` calls of `pre` (`apGridStep`).  Nothing the earlier calls cached
+    enters: the kernel buffer of the object is read on a hit, and the slot holds exactly this kernel -/
+theorem C06_gen_object_documented_model_every_call_list (a : PropArgs (Ten ℝ) ℝ) (hp0 : Heap (Ten ℝ)) (o : PropObj (Ten ℝ) ℝ) (h' : Heap (Ten ℝ))
+    (hi : pInit propOpsGrid a hp0 = some (o, h')) (hp : ∀ p, a.laser_channel_power = some p → p < hp0.size)
+    {h w : Nat} (hres : a.resolution = [(h : Int), (w : Int)]) (hrf : a.rf = 1)
+    (hty : a.propagator_type = "forward" ∨ a.propagator_type = "back and forth")
+    (hme : a.method = "conventional" ∨ a.method = "multi-color")
+    (kern : ℝ → ℝ → CGrid ℝ (2 * h) (2 * w))
+    (hk : ∀ lam z, propagationKernelT a.propagation_type (2 * h) (2 * w) a.pixel_pitch lam z (a.aperture_samples.getD 0 0).toNat
+      (a.aperture_samples.getD 1 0).toNat (a.aperture_samples.getD 2 0).toNat (a.aperture_samples.getD 3 0).toNat = some (kern lam z)) :
+    ∃ dists ap, pInitCall propOpsGrid a hp0 = some (o.toSelf, h', (), pInitLog a) ∧
+      h'.get o.distances = some dists ∧ h'.get o.aperture = some ap ∧
+      ∀ (pre : List (PCall (Ten ℝ))) (u : Ten ℝ) (c d : Nat), (∀ x ∈ pre, x.good o h' ∧ x.apShape h w) → u.shape = [h, w] →
+        c < a.wavelengths.length → (d : Int) < o.number_of_depth_layers →
+        ∃ s1 ys s2 y, runSteps (pStep propOpsGrid) (o.toSelf, h') pre = some (s1, ys) ∧
+          pStep propOpsGrid s1 (.forward u (c : Int) (d : Int)) = some (s2, y) ∧
+          runSteps (pStep propOpsGrid) (o.toSelf, h') (pre ++ [.forward u (c : Int) (d : Int)]) = some (s2, ys ++ [y]) ∧
+          y.vals = [Ten.ofGrid (cropGrid (customDocumented (padGrid (Ten.toGrid h w u)) (objKernelGrid o kern dists c d)
+            (pre.foldl apGridStep (Ten.toGrid (2 * h) (2 * w) ap))))] := by
+  obtain ⟨e1, -, e3, e4, -, -, e7, -, -, -, e11, -⟩ := pInit_fields propOpsGrid a hp0 o h' hi
+  have hk' : ∀ lam z, propagationKernelT o.propagation_type (2 * h) (2 * w) o.pixel_pitch lam z (o.samp 0) (o.samp 1) (o.samp 2) (o.samp 3) = some (kern lam z) := by
+    intro lam z
+    simp only [PropObj.samp, e3, e4, e7]
+    exact hk lam z
+  obtain ⟨dists, ap, cp, hd, ha, -, hall⟩ := propagator_grid_forward_after a hp0 o h' hi hp hres hty hme kern hk'
+  refine ⟨dists, ap, gen_propagatorInitG_eq propOpsGrid a hp0 o h' hi, hd, ha, fun pre u c d hpre hu hc _ => ?_⟩
+  obtain ⟨s1, ys, s2, y, r1, r2, r3, r4⟩ := hall pre u c d (fun x hx => (hpre x hx).1) hu hc
+  refine ⟨s1, ys, s2, y, r1, r2, r3, ?_⟩
+  rw [r4, gen_customT_eq, C06_call_is_documented_model,
+    toGrid_pRefAp o (by rw [e1]; exact hres) (by rw [e11]; exact hrf) pre ap (fun x hx => (hpre x hx).2)]
+
+/-- what `dists` and `ap` of the previous theorem are: the distances are the CALLER'S tensor when one is passed to the constructor and
+    `linspace(-volume_depth / 2, volume_depth / 2, n) + image_location_offset` otherwise; the aperture grid is the caller's `[h, w]` aperture
+    zero-padded, or the circular mask of the padded size whose radius is `aperture_size` or the longer side -/
+theorem C06_gen_object_distances_and_aperture (a : PropArgs (Ten ℝ) ℝ) (hp0 : Heap (Ten ℝ)) (o : PropObj (Ten ℝ) ℝ) (h' : Heap (Ten ℝ))
+    (hi : pInit propOpsGrid a hp0 = some (o, h')) (hp : ∀ p, a.laser_channel_power = some p → p < hp0.size)
+    {h w : Nat} (hres : a.resolution = [(h : Int), (w : Int)]) (hrf : a.rf = 1)
+    (dists ap : Ten ℝ) (hd : h'.get o.distances = some dists) (ha : h'.get o.aperture = some ap) :
+    (∀ l, a.distances = some l → hp0.get l = some dists) ∧
+    (a.distances = none → ∀ d : Nat, (dists.el [(d : Int)]).re =
+      linspace (-a.volume_depth / 2) (a.volume_depth / 2) a.number_of_depth_layers.toNat d + a.image_location_offset) ∧
+    (∀ l v, a.aperture = some l → hp0.get l = some v → v.shape = [h, w] → Ten.toGrid (2 * h) (2 * w) ap = padGrid (Ten.toGrid h w v)) ∧
+    (a.aperture = none → Ten.toGrid (2 * h) (2 * w) ap = Ten.circMaskGrid (2 * h) (2 * w)
+      (match a.aperture_size with | some s => s.val.re | none => if (h : ℝ) < (w : ℝ) then (w : ℝ) else (h : ℝ))) := by
+  obtain ⟨d1, d2⟩ := pInit_distances propOpsGrid propLaws_propOpsGrid a hp0 o h' hi hp dists hd
+  obtain ⟨a1, a2⟩ := pInit_aperture propOpsGrid a hp0 o h' hi ap ha
+  refine ⟨d1, fun hn d => ?_, fun l v hl hv hs => ?_, fun hn => ?_⟩
+  · rw [d2 hn]
+    exact defaultDistances_el _ _ _ d
+  · obtain ⟨X, eX, eg⟩ := apertureValue_given (h := h) (w := w) a.rf v hs a.aperture_size
+    have := a2 l v hl hv
+    rw [hres, eX] at this
+    injection this with this
+    rw [← this, eg]
+  · obtain ⟨X, eX, eg⟩ := apertureValue_default (h := h) (w := w) a.aperture_size
+    have := a1 hn
+    rw [hres, hrf, eX] at this
+    injection this with this
+    rw [← this]
+    exact eg.trans (by cases a.aperture_size <;> rfl)
+
+/-- **back and forth = one propagation by the net distance**, on the regenerated object: with the unit-modulus, distance-additive kernels
+    ('Angular Spectrum', 'Transfer Function Fresnel') the kernel a 'back and forth' propagator multiplies with for (channel, plane) is the
+    kernel of the single distance `z_d - image_location_offset` - the zero-mode distance drops out -/
+theorem C06_gen_object_back_and_forth_net {h w : Nat} (o : PropObj (Ten ℝ) ℝ) (hb : o.propagator_type = "back and forth") (dists : Ten ℝ) (c d : Nat) :
+    objKernelGrid (h := h) (w := w) o (fun lam z => asKernel (2 * h) (2 * w) o.pixel_pitch lam z) dists c d =
+      asKernel (2 * h) (2 * w) o.pixel_pitch (o.wavelengths.getD c 0) ((dists.el [(d : Int)]).re - o.image_location_offset) ∧
+    objKernelGrid (h := h) (w := w) o (fun lam z => tfKernel (2 * h) (2 * w) o.pixel_pitch lam (wavenumber lam) z) dists c d =
+      tfKernel (2 * h) (2 * w) o.pixel_pitch (o.wavelengths.getD c 0) (wavenumber (o.wavelengths.getD c 0))
+        ((dists.el [(d : Int)]).re - o.image_location_offset) := by
+  have hf : ¬ o.propagator_type = "forward" := by rw [hb]; decide
+  constructor
+  · simp only [objKernelGrid, hf, if_false]
+    apply Grid.ext_get; intro i j
+    rw [CGrid.get_mul, as_add, show o.zero_mode_distance.val.re + -(o.zero_mode_distance.val.re + o.image_location_offset - (dists.el [(d : Int)]).re)
+      = (dists.el [(d : Int)]).re - o.image_location_offset by ring]
+  · simp only [objKernelGrid, hf, if_false]
+    apply Grid.ext_get; intro i j
+    rw [CGrid.get_mul, tf_add, show o.zero_mode_distance.val.re + -(o.zero_mode_distance.val.re + o.image_location_offset - (dists.el [(d : Int)]).re)
+      = (dists.el [(d : Int)]).re - o.image_location_offset by ring]
+
+/-- the kernels the previous theorems need: the regenerated dispatch `get_propagation_kernel` gives the model kernels for the three
+    transfer-function methods, at every size (so `hk` of `C06_gen_object_documented_model_every_call_list` holds for them) -/
+theorem C06_gen_object_kernels_of_the_dispatch (n m : Nat) (dx lam z : ℝ) (s0 s1 s2 s3 : Nat) :
+    propagationKernelT "Angular Spectrum" n m dx lam z s0 s1 s2 s3 = some (asKernel n m dx lam z) ∧
+    propagationKernelT "Bandlimited Angular Spectrum" n m dx lam z s0 s1 s2 s3 = some (blKernel n m dx lam z) ∧
+    propagationKernelT "Transfer Function Fresnel" n m dx lam z s0 s1 s2 s3 = some (tfKernel n m dx lam (wavenumber lam) z) := by
+  simp only [gen_propagationKernelT_eq, torchKernel]
+  refine ⟨by simp, by simp, by simp⟩
 
 end Odak
